@@ -113,3 +113,61 @@ def seq_projection(trace, job, thread=None):
             ev.append({"e": "obs", "len": o["len"], "empty": o["empty"], "items": o["items"], "gets": o["gets"]})
     keys.discard(0)
     return {"id": trace["id"], "set": 1 if is_set else 0, "keys": sorted(keys), "ev": ev}
+
+
+def quiescent_projection(trace, job):
+    """observations taken at quiescent points -> Trace_Quiescent input"""
+    ev = []
+    for e in trace["ev"]:
+        if e.get("e") in ("obs", "quiescent"):
+            o = e["o"]
+            if o.get("snap") is None:
+                continue
+            ev.append({"len": o["len"], "empty": o["empty"], "items": o["items"], "gets": o["gets"], "snap": o["snap"]})
+    return {"id": trace["id"], "ev": ev}
+
+
+def _hash_of(job, k):
+    t = job["hasher"].get("table", [])
+    return t[k] if k < len(t) else k
+
+
+def _tab(o):
+    s = o.get("snap") or {}
+    ts = s.get("tables") or []
+    if not ts:
+        return 0, s.get("count", 0), []
+    return ts[0]["len"], s.get("count", 0), ts[0]["bins"]
+
+
+def capacity_projection(trace, job):
+    """per-operation table length / count before and after (from the inspector observations)
+    -> Trace_Capacity input. Needs a table-driven hasher (to know the bin a key hashes to)."""
+    ev = []
+    prev = None
+    cur = None
+    fills = job.get("fills", [])     # [(index of obs before, index of obs after, c, fresh)]
+    obs = []
+    for e in trace["ev"]:
+        k = e.get("e")
+        if k == "call":
+            cur = e
+        elif k == "obs":
+            o = e["o"]
+            obs.append(o)
+            if prev is not None and cur is not None:
+                lenb, cntb, binsb = _tab(prev)
+                lena, cnta, _ = _tab(o)
+                op = cur["op"]
+                kind = "insert" if op in ("insert", "try_insert") else op if op in ("reserve", "extend") else "other"
+                binpop = 0
+                if kind == "insert" and lenb > 0:
+                    b = binsb[_hash_of(job, cur["k"]) & (lenb - 1)]
+                    binpop = len(b.get("nodes", []))
+                ev.append({"e": "op", "op": op, "kind": kind, "lenb": lenb, "lena": lena, "cntb": cntb, "cnta": cnta, "binpop": binpop})
+            prev = o
+            cur = None
+    for (i0, i1, c, fresh) in fills:
+        if i0 < len(obs) and i1 < len(obs):
+            ev.append({"e": "fill", "c": c, "fresh": fresh, "len0": _tab(obs[i0])[0], "len1": _tab(obs[i1])[0]})
+    return {"id": trace["id"], "ev": ev}
